@@ -913,8 +913,13 @@ func hasKnownShape(c Case) bool {
 	return false
 }
 
-func TestMergeAlgebra(t *testing.T) {
-	rapid.Check(t, func(t *rapid.T) {
+func TestMergeAlgebra(t *testing.T) { rapid.Check(t, propMergeAlgebra) }
+
+// FuzzMergeAlgebra: the same property driven by the coverage-guided engine (thorough tier).
+func FuzzMergeAlgebra(f *testing.F) { f.Fuzz(rapid.MakeFuzz(propMergeAlgebra)) }
+
+func propMergeAlgebra(t *rapid.T) {
+	{
 		c, renames := genCase(t)
 		if excludeKnown && hasKnownShape(c) {
 			rec.Excluded("intersection-order-dependent")
@@ -938,7 +943,7 @@ func TestMergeAlgebra(t *testing.T) {
 			sort.Strings(descr)
 			rec.Sample(strings.Join(labels, "+"), map[string]interface{}{"documents": descr, "edits": c.Edits})
 		}
-	})
+	}
 }
 
 func TestReplay(t *testing.T) {
